@@ -4,5 +4,5 @@ PID="$1"; shift
 for M in "$@"; do
   sh "$(dirname "$0")/verify_seeded.sh" "$PID" "$M" 2>&1 | tail -1 | tee -a /tmp/sw_verify_$PID.log
   OUT=$(sh "$(dirname "$0")/run_seeded.sh" "$PID" "/tmp/wt/$PID-out/$M/patch.diff" --tier quick 2>&1); RC=$?
-  echo "CHECK $PID $M rc=$RC"; echo "$OUT" | grep -A1 -E "VIOLATION|HARNESS" | cut -c1-400 | head -12
+  echo "CHECK $PID $M rc=$RC"; printf "%s\n" "$OUT" | grep -A1 -E "VIOLATION|HARNESS" | cut -c1-400 | head -12
 done
